@@ -184,21 +184,13 @@ Definition univ_trans (u : universe) : bool :=
      if (snd ab =? fst bc) && is_iface u (snd ab) && is_iface u (snd bc)
      then memb (fst ab, snd bc) (u_impl u) else true) (u_impl u)) (u_impl u).
 
-(* no edge between two named-value vertices: no subtype-less named value
-   that is waiting to inherit from a same-named value with a subtype *)
-Definition no_named_inherit (fg : fgraph) : bool :=
-  forallb (fun k => match k with
-                    | KVal _ _ _ => forallb (fun r => match r with KVal _ _ _ => false | _ => true end)
-                                            (g_out_keys (fg_g fg) k)
-                    | _ => true end) (g_vertex_keys (fg_g fg)).
-
 (* distances cannot overflow *)
 Definition small_graph (fg : fgraph) : bool :=
   20 * (Z.of_nat (List.length (g_vertex_keys (fg_g fg))) + 1) <? INF.
 
 Definition c05_alt_premise (u : universe) (fg : fgraph) : bool :=
   target_derivable fg [] && univ_trans u && small_graph fg &&
-  ((single_input_convs fg && no_named_inherit fg) ||
+  (single_input_convs fg ||
    (negb (conv_cyclic fg) && convs_satisfiable fg [])).
 
 Definition C05_alt_statement : Prop :=
